@@ -24,6 +24,29 @@ theorem assembleLoop_eq_foldl (sl : List String) (del : List Nat) (ops : List Op
     · simp [h, ih]
     · simp [h, ih]
 
+theorem flatten_splitGroups {α : Type} (ns : List Nat) (xs : List α) : (splitGroups ns xs).flatten = xs := by
+  induction ns generalizing xs with
+  | nil => cases xs <;> simp [splitGroups]
+  | cons n ns ih => simp [splitGroups, ih]
+
+theorem assembleLoop_append (sl : List String) (del : List Nat) (a b : List Op) (l : Lists) :
+    assembleLoop sl del (a ++ b) l = assembleLoop sl del b (assembleLoop sl del a l) := by
+  induction a generalizing l with
+  | nil => rfl
+  | cons o rest ih => simp only [List.cons_append, assembleLoop]; exact ih _
+
+/-- the nesting of the two loops of `Mesh.assemble` does not matter: a deleted operation is skipped, the operations
+    after it in the same entity are not -/
+theorem assembleEntities_flatten (sl : List String) (del : List Nat) (es : List (List Op)) (l : Lists) :
+    assembleEntities sl del es l = assembleLoop sl del es.flatten l := by
+  induction es generalizing l with
+  | nil => rfl
+  | cons e rest ih => simp only [assembleEntities, List.flatten_cons, assembleLoop_append]; exact ih _
+
+theorem assemble_flat (m : Mesh) :
+    assemble m = { m with lists := assembleLoop (slavePatches m) m.deleted m.depot m.lists } := by
+  simp only [assemble, assembleEntities_flatten, entities, flatten_splitGroups]
+
 /-- the (patch name, side) items all operations contribute, in order; `vs` is the vertex list so far -/
 def allItems (sl : List String) : List Op → List Vtx → List (String × List Nat)
   | [], _ => []
